@@ -391,6 +391,9 @@ func (x *Exec) evalBinary(e *ast.BinaryExpr, st *State) Term {
 	switch e.Op {
 	case token.LAND, token.LOR:
 		a := x.eval(e.X, st)
+		if (e.Op == token.LAND && a.S == "false") || (e.Op == token.LOR && a.S == "true") {
+			return a // short circuit: the right operand is not evaluated
+		}
 		base := st.clone()
 		s1 := st.clone()
 		if e.Op == token.LAND {
